@@ -14,6 +14,97 @@ from typing import Dict, List, Optional, Tuple, Iterable
 from . import REPO_SRC, PKG
 
 
+class _InlineReturnTemp(ast.NodeTransformer):
+    """`x = E` immediately followed by `return x` (nothing can read that assignment but the return)  ->  `return E`.
+    One canonical form for the two spellings of the same return, so that rules which read what a function returns need not
+    care which one the code uses."""
+
+    def __init__(self):
+        self.outer = [set()]
+
+    def visit_FunctionDef(self, node):
+        # names declared global / nonlocal: assigning them is visible outside, the pair is left alone
+        self.outer.append({n for x in ast.walk(node) if isinstance(x, (ast.Global, ast.Nonlocal)) for n in x.names})
+        self.generic_visit(node)
+        self.outer.pop()
+        return node
+
+    visit_AsyncFunctionDef = visit_FunctionDef
+
+    def _block(self, stmts):
+        out = []
+        i = 0
+        while i < len(stmts):
+            a = stmts[i]
+            b = stmts[i + 1] if i + 1 < len(stmts) else None
+            if (isinstance(a, ast.Assign) and len(a.targets) == 1 and isinstance(a.targets[0], ast.Name) and isinstance(b, ast.Return)
+                    and isinstance(b.value, ast.Name) and b.value.id == a.targets[0].id and len(self.outer) > 1 and b.value.id not in self.outer[-1]):
+                r = ast.Return(value=a.value)
+                ast.copy_location(r, a)
+                r.end_lineno, r.end_col_offset = getattr(b, "end_lineno", None), getattr(b, "end_col_offset", None)
+                out.append(r)
+                i += 2
+                continue
+            out.append(a)
+            i += 1
+        return out
+
+    def generic_visit(self, node):
+        super().generic_visit(node)
+        for fld in ("body", "orelse", "finalbody"):
+            v = getattr(node, fld, None)
+            if isinstance(v, list) and v and isinstance(v[0], ast.stmt):
+                setattr(node, fld, self._block(v))
+        return node
+
+
+class _NoElseAfterJump(ast.NodeTransformer):
+    """`if c: ...; return/raise/continue/break` + `else: REST`  ->  the same `if` without else, followed by REST.
+    (An elif chain of returning branches becomes a sequence of ifs.) One canonical form for the two spellings."""
+
+    def _block(self, stmts):
+        out = []
+        for st in stmts:
+            if isinstance(st, ast.If) and st.orelse and st.body and isinstance(st.body[-1], (ast.Return, ast.Raise, ast.Continue, ast.Break)):
+                rest = st.orelse
+                st.orelse = []
+                out.append(st)
+                out.extend(self._block(rest))
+            else:
+                out.append(st)
+        return out
+
+    def generic_visit(self, node):
+        super().generic_visit(node)
+        for fld in ("body", "orelse", "finalbody"):
+            v = getattr(node, fld, None)
+            if isinstance(v, list) and v and isinstance(v[0], ast.stmt):
+                setattr(node, fld, self._block(v))
+        return node
+
+
+class _IfAssignToIfExp(ast.NodeTransformer):
+    """`if c: x = a` / `else: x = b` (one plain assignment to the same name on each side)  ->  `x = a if c else b`."""
+
+    def visit_If(self, node):
+        self.generic_visit(node)
+        if len(node.body) == 1 and len(node.orelse) == 1:
+            a, b = node.body[0], node.orelse[0]
+            if isinstance(a, ast.Assign) and isinstance(b, ast.Assign) and len(a.targets) == 1 and len(b.targets) == 1 \
+                    and isinstance(a.targets[0], ast.Name) and isinstance(b.targets[0], ast.Name) and a.targets[0].id == b.targets[0].id:
+                new = ast.Assign(targets=[a.targets[0]], value=ast.IfExp(test=node.test, body=a.value, orelse=b.value))
+                ast.copy_location(new, node)
+                ast.copy_location(new.value, node)
+                new.end_lineno, new.end_col_offset = getattr(node, "end_lineno", None), getattr(node, "end_col_offset", None)
+                new.value.end_lineno, new.value.end_col_offset = new.end_lineno, new.end_col_offset
+                return new
+        return node
+
+
+def canonicalise(tree: ast.Module) -> ast.Module:
+    return _NoElseAfterJump().visit(_IfAssignToIfExp().visit(_InlineReturnTemp().visit(tree)))
+
+
 class AnalysisError(Exception):
     """The analysis itself cannot run (vanished anchor, unparsable file, unsupported construct).
     Mapped to exit status 2 - never a pass, never a violation."""
@@ -337,6 +428,7 @@ class Program:
                 tree = ast.parse(src, p)
             except SyntaxError as e:
                 raise AnalysisError(f"{p} does not parse: {e}")
+            tree = canonicalise(tree)
             m = Module(modname, p, os.path.relpath(p, os.path.dirname(self.root)), src, tree, ispkg, self)
             self.modules[modname] = m
         for m in self.modules.values():
